@@ -97,6 +97,18 @@ CHECKS["C07"] = dict(
     design_ref="DESIGN.md#c07",
 )
 
+CHECKS["C14"] = dict(
+    category="exploration",
+    text="Real `st run` invocations (in-process) with combinations of --header (incl. a declared header in another case), --auth, "
+    "--set-query/-header/-cookie/-path and global auth providers (plain and filtered), workers 1/2/4, all phases incl. link-derived "
+    "requests, ignored_auth on/off; every request in the API's log is checked for the user's value (exactly one value per name), the "
+    "recorders identify the probes of ignored_auth. Provider caches are stressed directly from 2-8 threads with a virtual timer, keys "
+    "from a small set and delays at the three guarded cache points; every underlying fetch is logged.",
+    note="An override is expected on the operations that declare the parameter; provider refresh is judged in virtual time.",
+    technique="runtime monitoring: server-side request log invariants + exactly-once-per-interval check over recorded provider histories",
+    design_ref="DESIGN.md#c14",
+)
+
 NOT_APPLICABLE = {}
 
 
